@@ -142,3 +142,33 @@ Fixpoint serve_all (d : dec) (qs : list req) : list resp * dec :=
   | [] => ([], d)
   | q :: r => let '(a, d1) := serve d q in let '(rs, d2) := serve_all d1 r in (a :: rs, d2)
   end.
+
+(** ---- executable entry point for the correspondence (C11) ---- *)
+Inductive creq :=
+| CWord | CWords (n : nat) | CString | CBit64 | CTyped (ty : string)
+| CSetLimit (n : N) | CClear | COffset | CHasLimit | CLimitReached.
+
+Definition conv_of (es : list enum_decl) (fs : list flags_decl) (ty : string) : option tconv :=
+  match find_flags fs ty with
+  | Some F => Some (ConvFlags F)
+  | None => match find_enum es ty with Some E => Some (ConvEnum E) | None => None end
+  end.
+
+Definition creq_to_req es fs (c : creq) : option req :=
+  match c with
+  | CWord => Some RWord | CWords n => Some (RWords n) | CString => Some RString
+  | CBit64 => Some RBit64
+  | CTyped ty => option_map RTyped (conv_of es fs ty)
+  | CSetLimit n => Some (RSetLimit n) | CClear => Some RClearLimit | COffset => Some ROffset
+  | CHasLimit => Some RHasLimit | CLimitReached => Some RLimitReached
+  end.
+
+Fixpoint creqs_to_reqs es fs (cs : list creq) : option (list req) :=
+  match cs with
+  | [] => Some []
+  | c :: r => match creq_to_req es fs c, creqs_to_reqs es fs r with
+              | Some q, Some qs => Some (q :: qs) | _, _ => None end
+  end.
+
+Definition c11_run es fs (bytes : list N) (cs : list creq) : option (list resp * dec) :=
+  option_map (serve_all (mkdec bytes)) (creqs_to_reqs es fs cs).
